@@ -32,6 +32,9 @@ func checkC06(c *Ctx, r *Report) {
 	c06GenerateInherits(c, r, "C06.R4.generate-inherits")
 	genericPrefix(c, r, "C06.R6.generic-prefix")
 	ttlUnitsNeedNumbers(c, r, "C06.R3.ttl-units-need-numbers")
+	ownerCompleted(c, r, "C06.R1.owner-completed")
+	generateBase(c, r, "C06.R5.generate-base")
+	keywordCase(c, r, "C06.R6.keyword-case")
 }
 
 // mustPassExit is mustPass restricted to the exits accepted by isExit.
